@@ -256,6 +256,40 @@ def check(ctx):
         early = [x for x in ast.walk(lp) if isinstance(x, (ast.Break, ast.Return)) and not any(isinstance(p_, (ast.FunctionDef, ast.Lambda)) and x in ast.walk(p_) for p_ in ast.walk(lp) if p_ is not lp)]
         ctx.check(not early, "C19.R13", q_, early[0] if early else lp, "the loop over the resolver's parameters can stop before the last one (e.g. at the GraphQLResolveInfo parameter): the parameters declared after it are not published / not deserialized, while the other side handles them", f_, early[0] if early else lp, detail="no break / return in the parameter loop")
 
+    # ---------------- R15: interfaces are closed under "implements"
+    ctx.rule("C19.R15", "an object type flattening a type T declares T's interfaces transitively (GraphQL: a type implementing I must implement every interface of I)", floor=2)
+    oo = model.func(f"{GQL}.OutputSchemaBuilder.object")
+    it = oo.nested.get("interface_thunk")
+    ctx.require(it is not None, "OutputSchemaBuilder.object.interface_thunk vanished")
+    branches = [n for n in ast.walk(it.node) if isinstance(n, ast.If) and "isinstance(flattened" in norm(n.test)]
+    seen_b = []
+    for b in branches:
+        cur = b
+        while True:
+            seen_b.append((norm(cur.test), cur.body))
+            if len(cur.orelse) == 1 and isinstance(cur.orelse[0], ast.If):
+                cur = cur.orelse[0]
+            else:
+                break
+        break
+    ctx.require(len(seen_b) >= 2, "interface_thunk: the branches on the kind of the flattened type were not recognised")
+    for test, body in seen_b:
+        closes = any(isinstance(c, ast.Call) and norm(c.func) == "all_interfaces.update" and c.args and norm(c.args[0]) == "flattened.interfaces" for s_ in body for c in ast.walk(s_))
+        ctx.check(closes, "C19.R15", f"{oo.qualname}:{test[:50]}", body[0], f"under `{test}` the interfaces of the flattened type are not propagated: `type Outer implements I2` without I1 when I2 implements I1 is rejected by validate_schema", oo, body[0], detail="all_interfaces.update(flattened.interfaces)")
+
+    # ---------------- R14: the error handler covers the point where the resolver's exception is raised
+    ctx.rule("C19.R14", "the try block applying a resolver's error_handler covers the execution of the resolver, also when it is a coroutine function", floor=1)
+    rr_ = model.func("apischema.graphql.resolvers.resolver_resolve")
+    rs = rr_.nested.get("resolve")
+    ctx.require(rs is not None, "resolver_resolve.resolve vanished")
+    handled = [t_ for t_ in ast.walk(rs.node) if isinstance(t_, ast.Try) and any("error_handler" in norm(h_) for h_ in t_.handlers)]
+    ctx.require(len(handled) == 1, "the try block applying error_handler was not found")
+    async_aware = any(isinstance(n, (ast.AsyncFunctionDef, ast.Await)) for n in ast.walk(rr_.node)) or "inspect.isawaitable" in norm(rr_.node)
+    wraps_async = "as_async(" in norm(rr_.node) and "is_async(resolver.func)" in norm(rr_.node)
+    ctx.check(async_aware or not wraps_async, "C19.R14", f"{rr_.qualname}:async-error-handler", None,
+              "for a coroutine resolver `func(...)` only creates the coroutine inside the try block; it is awaited later by the as_async wrapper, outside of it: an exception raised by an async resolver bypasses error_handler (a sync resolver with the same handler returns the handler's result)",
+              rr_, handled[0], detail="await inside the try (async wrapper)")
+
     # ---------------- R12: methods of a generic class are looked up with the parametrised type
     ctx.rule("C19.R12", "serialized methods / resolvers are looked up with the visited type itself (`tp`, possibly a parametrised generic), not its origin class: their TypeVars are substituted from it", floor=3)
     n12 = 0
@@ -340,6 +374,7 @@ def mutants(mb):
     mb.add_text("flatten-context-leaks-to-field-types", G, "        factory = self._visit_field_type(field.type, field.serialization)\n", "        factory = self.visit_with_conv(field.type, field.serialization)\n", "C19.R11", "_field")
     mb.add_text("resolvers-of-origin-class", G, "        for resolver, types in get_resolvers(tp):", "        for resolver, types in get_resolvers(cls):", "C19.R12", "get_resolvers")
     mb.add_text("arguments-stop-at-info", G, "                if is_union_of(param_type, graphql.GraphQLResolveInfo):\n                    continue\n", "                if is_union_of(param_type, graphql.GraphQLResolveInfo):\n                    break\n", "C19.R13", "_resolver")
+    mb.add_text("flattened-interface-not-closed", G, "                        # interfaces of an implemented interface must be implemented too\n                        all_interfaces.update(flattened.interfaces)\n", "", "C19.R15", "object")
     mb.add_text("neg-default-tuple-membership", G, "                elif param.default is None or param.default is Undefined:\n", "                elif param.default in (None, Undefined):\n", negative=True)
     mb.add_text("field-no-fallback-optional", G, "            except Exception:\n                field_type = Optional[field_type]\n", "            except Exception:\n                raise\n", "C19.R4", "_field")
     mb.add_text("default-no-aliaser", G, "                            param.default,\n                            aliaser=self.aliaser,\n", "                            param.default,\n", "C19", "")
